@@ -987,4 +987,220 @@ example : (step exCfg exKL (.setIdx (-1) (2, 99))).1.list = [(1, 10), (2, 99)] :
 example : (step exCfg exKL (.extend [(3, 0), (1, 0)])).1 = exKL := by rfl
 example : specStep exCfg exKL.list (.setIdx (-1) (1, 99)) = none := by decide
 
+
+/-! ## item equality that is not identity -/
+
+/-- The operations whose result depends on item equality (`==`). -/
+def eqOp : Op α κ → Bool
+  | .remove _ | .index _ | .count _ | .containsItem _ | .eqList _ => true
+  | _ => false
+
+/-- Every other operation, in particular everything by key, is the `step` of the
+identity-equality model whatever `==` is. -/
+theorem stepE_of_not_eqOp (c : Cfg α κ) (eqv : α → α → Bool) (l : KL α κ) (op : Op α κ)
+    (h : eqOp op = false) : stepE c eqv l op = step c l op := by
+  cases op <;> first | rfl | (simp [eqOp] at h)
+
+/-- **By-key access never consults item equality**: two item-equality relations give the
+same result and the same state for every operation outside `remove/index/count/in/==`. -/
+theorem byKey_ignores_item_equality (c : Cfg α κ) (eqv eqv' : α → α → Bool) (l : KL α κ)
+    (op : Op α κ) (h : eqOp op = false) : stepE c eqv l op = stepE c eqv' l op := by
+  rw [stepE_of_not_eqOp c eqv l op h, stepE_of_not_eqOp c eqv' l op h]
+
+/-- With identity as item equality `stepE` is `step` (the theorems above this section are
+the special case). -/
+theorem stepE_structural (c : Cfg α κ) (l : KL α κ) (op : Op α κ) :
+    stepE c (fun a b => a == b) l op = step c l op := by
+  cases op <;> try rfl
+  case containsItem x =>
+    simp only [stepE, step, containsItemE, containsItem]
+    have : (fun y => y == x) = (fun y => x == y) := by
+      funext y; exact Bool.beq_comm
+    rw [List.contains_eq_any_beq, this]
+  case eqList xs => simp [stepE, step, listEqv_beq]
+
+/-- `index(x)` returns the first position whose item is `==` to `x`. -/
+theorem index_is_first_equal (eqv : α → α → Bool) (l : KL α κ) (x : α) (i : Nat) :
+    indexOfE eqv l x = .ok i ↔
+      ∃ h : i < l.list.length, eqv l.list[i] x = true ∧
+        ∀ j (hj : j < i), eqv (l.list[j]'(Nat.lt_trans hj h)) x = false := by
+  unfold indexOfE
+  cases hf : l.list.findIdx? (fun y => eqv y x) with
+  | none =>
+    simp only [reduceCtorEq, false_iff]
+    rintro ⟨h, he, _⟩
+    have := List.findIdx?_eq_none_iff.1 hf l.list[i] (List.getElem_mem _)
+    simp [he] at this
+  | some k =>
+    simp only [Except.ok.injEq]
+    rw [List.findIdx?_eq_some_iff_getElem] at hf
+    obtain ⟨hk, hke, hkj⟩ := hf
+    constructor
+    · rintro rfl
+      exact ⟨hk, hke, fun j hj => by simpa using hkj j hj⟩
+    · rintro ⟨h, he, hj⟩
+      rcases Nat.lt_trichotomy k i with hlt | heq | hgt
+      · have := hj k hlt; simp [hke] at this
+      · exact heq
+      · have := hkj i hgt; simp [he] at this
+
+/-- `index(x)` raises ValueError exactly when no listed item is `==` to `x`. -/
+theorem index_error_iff (eqv : α → α → Bool) (l : KL α κ) (x : α) :
+    indexOfE eqv l x = .error .valueError ↔ ∀ y ∈ l.list, eqv y x = false := by
+  unfold indexOfE
+  cases hf : l.list.findIdx? (fun y => eqv y x) with
+  | none => simpa using List.findIdx?_eq_none_iff.1 hf
+  | some k =>
+    simp only [reduceCtorEq, false_iff]
+    intro hall
+    rw [List.findIdx?_eq_some_iff_getElem] at hf
+    obtain ⟨hk, hke, _⟩ := hf
+    have := hall _ (List.getElem_mem hk)
+    simp [hke] at this
+
+/-- `remove(x)` deletes the first item that is `==` to `x` and drops the key **of that
+item** from the index — also when `x` itself has a different key. -/
+theorem remove_refines (c : Cfg α κ) (eqv : α → α → Bool) (l : KL α κ) (x : α) :
+    removeE c eqv l x =
+      match l.list.findIdx? (fun y => eqv y x) with
+      | none => .error .valueError
+      | some i => match l.list[i]? with
+        | none => .error .indexError
+        | some y => .ok ⟨l.list.eraseIdx i, dictDel l.dict (c.key y)⟩ := by
+  unfold removeE indexOfE
+  cases hf : l.list.findIdx? (fun y => eqv y x) with
+  | none => rfl
+  | some i =>
+    have hlt : i < l.list.length := (List.findIdx?_eq_some_iff_getElem.1 hf).1
+    have hk : pyIdx l.list.length ((i : Nat) : Int) = some i := by
+      unfold pyIdx; simp [hlt]
+    simp [delIdx, hk, List.getElem?_eq_getElem hlt]
+
+theorem coh_removeE {c : Cfg α κ} {eqv : α → α → Bool} {l l' : KL α κ} (h : Coh c l) (x : α)
+    (hr : removeE c eqv l x = .ok l') : Coh c l' := by
+  unfold removeE at hr
+  split at hr
+  · cases hr
+  · exact coh_delIdx h _ hr
+
+/-- `x in l`: the key-index test (when the item can serve as a key) or some listed item `==` x. -/
+theorem containsItem_iff (c : Cfg α κ) (eqv : α → α → Bool) (l : KL α κ) (x : α) :
+    containsItemE c eqv l x = true ↔
+      (∃ k, c.asKey x = some k ∧ hasKey l.dict k = true) ∨ ∃ y ∈ l.list, eqv y x = true := by
+  unfold containsItemE
+  cases c.asKey x <;> simp
+
+/-- Coherence is preserved whatever item equality is (no assumption on `eqv` at all). -/
+theorem coh_stepE {c : Cfg α κ} (eqv : α → α → Bool) {l : KL α κ} (h : Coh c l) (op : Op α κ) :
+    Coh c (stepE c eqv l op).1 := by
+  by_cases ho : eqOp op = false
+  · rw [stepE_of_not_eqOp c eqv l op ho]; exact coh_step h op
+  · cases op <;> simp [eqOp] at ho <;> simp only [stepE] <;> try exact h
+    case remove x => split <;> [exact coh_removeE h _ ‹_›; exact h]
+
+theorem coh_runE {c : Cfg α κ} (eqv : α → α → Bool) : ∀ (ops : List (Op α κ)) {l : KL α κ},
+    Coh c l → Coh c (runE c eqv l ops).1
+  | [], _, h => h
+  | op :: ops, l, h => by
+    simp only [runE]
+    exact coh_runE eqv ops (coh_stepE eqv h op)
+
+theorem stepE_atomic (c : Cfg α κ) (eqv : α → α → Bool) (l : KL α κ) (op : Op α κ) (e : Err)
+    (he : (stepE c eqv l op).2 = .err e) : (stepE c eqv l op).1 = l := by
+  by_cases ho : eqOp op = false
+  · rw [stepE_of_not_eqOp c eqv l op ho] at he ⊢; exact step_atomic c l op e he
+  · cases op <;> simp [eqOp] at ho <;> (simp only [stepE] at he ⊢; try rfl)
+    all_goals first | cases he | (split at he <;> first | rfl | cases he)
+
+/-- SPEC with item equality `eqv`: what a plain Python list does. -/
+def specStepE (c : Cfg α κ) (eqv : α → α → Bool) (xs : List α) : Op α κ → Option (List α)
+  | .remove x => (xs.findIdx? (fun y => eqv y x)).map fun i => xs.eraseIdx i
+  | .index x => (xs.findIdx? (fun y => eqv y x)).map fun _ => xs
+  | op => specStep c xs op
+
+theorem specStepE_of_not_eqOp (c : Cfg α κ) (eqv : α → α → Bool) (xs : List α) (op : Op α κ)
+    (h : eqOp op = false) : specStepE c eqv xs op = specStep c xs op := by
+  cases op <;> first | rfl | (simp [eqOp] at h)
+
+/-- **Refinement with arbitrary item equality.** -/
+theorem stepE_refines_list {c : Cfg α κ} (eqv : α → α → Bool) {l : KL α κ} (h : Coh c l)
+    (op : Op α κ) :
+    match specStepE c eqv l.list op with
+    | some xs' => (stepE c eqv l op).1.list = xs' ∧ ∀ e, (stepE c eqv l op).2 ≠ .err e
+    | none => (stepE c eqv l op).1 = l ∧ ∃ e, (stepE c eqv l op).2 = .err e := by
+  by_cases ho : eqOp op = false
+  · rw [stepE_of_not_eqOp c eqv l op ho, specStepE_of_not_eqOp c eqv l.list op ho]
+    exact step_refines_list h op
+  · cases op <;> simp [eqOp] at ho
+    case remove x =>
+      simp only [specStepE, stepE]
+      rw [remove_refines]
+      cases hf : l.list.findIdx? (fun y => eqv y x) with
+      | none => simp
+      | some i =>
+        have hlt : i < l.list.length := (List.findIdx?_eq_some_iff_getElem.1 hf).1
+        simp [List.getElem?_eq_getElem hlt]
+    case index x =>
+      simp only [specStepE, stepE, indexOfE]
+      cases l.list.findIdx? (fun y => eqv y x) <;> simp
+    case count x => simp [specStepE, specStep, stepE]
+    case containsItem x => simp [specStepE, specStep, stepE]
+    case eqList xs => simp [specStepE, specStep, stepE]
+
+def specRunE (c : Cfg α κ) (eqv : α → α → Bool) : List α → List (Op α κ) → List α
+  | xs, [] => xs
+  | xs, op :: ops => specRunE c eqv ((specStepE c eqv xs op).getD xs) ops
+
+theorem runE_refines_list {c : Cfg α κ} (eqv : α → α → Bool) : ∀ (ops : List (Op α κ)) {l : KL α κ},
+    Coh c l → (runE c eqv l ops).1.list = specRunE c eqv l.list ops
+  | [], _, _ => rfl
+  | op :: ops, l, h => by
+    simp only [runE, specRunE]
+    have hs := stepE_refines_list eqv h op
+    have hc := coh_stepE eqv h op
+    rw [runE_refines_list eqv ops hc]
+    cases hsp : specStepE c eqv l.list op with
+    | none => rw [hsp] at hs; simp [hs.1]
+    | some xs' => rw [hsp] at hs; simp [hs.1]
+
+/-- Locating the item stored under a key by item equality (`self._list.index(self._dict[k])`)
+is the scan by key **only if** `==` is reflexive and equal listed items have equal keys. -/
+theorem locate_by_equality_sound {c : Cfg α κ} {eqv : α → α → Bool} {l : KL α κ} (h : Coh c l)
+    (hrefl : ∀ x ∈ l.list, eqv x x = true)
+    (hresp : ∀ x ∈ l.list, ∀ y ∈ l.list, eqv y x = true → c.key y = c.key x)
+    (k : κ) (x : α) (hx : dictGet l.dict k = some x) :
+    indexOfE eqv l x = indexForKey c l k := by
+  have hmem := (h.dictIff k x).1 ((dictGet_eq_some_iff _ h.dictNodup k x).1 hx)
+  obtain ⟨hxl, hxk⟩ := hmem
+  have hcongr : l.list.findIdx? (fun y => eqv y x) = l.list.findIdx? (fun y => c.key y == k) := by
+    apply findIdx?_congr_mem
+    intro y hy
+    by_cases he : eqv y x = true
+    · have := hresp x hxl y hy he
+      simp [he, this, hxk]
+    · by_cases hk : c.key y = k
+      · have : y = x := eq_of_key_eq c.key h.keysNodup hy hxl (hk.trans hxk.symm)
+        subst this
+        exact absurd (hrefl y hy) he
+      · simp only [Bool.not_eq_true] at he
+        simp [he, hk]
+  rw [indexForKey_is_scan h, indexOfE, hcongr]
+  cases hf : l.list.findIdx? (fun y => c.key y == k) with
+  | some i => rfl
+  | none =>
+    have := List.findIdx?_eq_none_iff.1 hf x hxl
+    simp [hxk] at this
+
+/-! non-vacuity / necessity of the hypothesis: items equal on the payload, keyed by the first
+component -/
+private def exCfgE : Cfg (Nat × Nat) Nat := { key := (·.1), okItem := fun _ => true, asKey := fun _ => none }
+private def exEqv : Nat × Nat → Nat × Nat → Bool := fun a b => a.2 == b.2
+private def exKLE : KL (Nat × Nat) Nat := ⟨[(1, 5), (2, 5), (3, 7)], [(1, (1, 5)), (2, (2, 5)), (3, (3, 7))]⟩
+
+/-- without "equal items have equal keys" the two ways of locating differ -/
+example : indexOfE exEqv exKLE (2, 5) = .ok 0 ∧ indexForKey exCfgE exKLE 2 = .ok 1 := by decide
+example : (stepE exCfgE exEqv exKLE (.delKey 2)).1.list = [(1, 5), (3, 7)] := by decide
+example : (stepE exCfgE exEqv exKLE (.remove (9, 5))).1 = ⟨[(2, 5), (3, 7)], [(2, (2, 5)), (3, (3, 7))]⟩ := by rfl
+example : (stepE exCfgE exEqv exKLE (.count (0, 5))).2 = .nat 2 := by rfl
+
 end SpecVerif.Props.C13
